@@ -479,11 +479,11 @@ func propC02(c *Ctx) {
 					r2, _ := reach(siteOf(ld), isInstr(cm), newCuts().addEdges(notReorg))
 					dom := m.dom(ld, cm)
 					// reached only over an edge on which the error is nil: a nil error is no reorg either, whether or
-				// not errors.Is was asked on that path (`switch { case err == nil: … case !errors.Is(err, ErrReorg): … }`)
-				if !r1 && len(isNil) > 0 {
-					r2 = false
-				}
-				c.Check("R2.4", fmt.Sprintf("Converge/read-tx-commit#%d", i+1), instrPos(cm), dom && !r1 && !r2,
+					// not errors.Is was asked on that path (`switch { case err == nil: … case !errors.Is(err, ErrReorg): … }`)
+					if !r1 && len(isNil) > 0 {
+						r2 = false
+					}
+					c.Check("R2.4", fmt.Sprintf("Converge/read-tx-commit#%d", i+1), instrPos(cm), dom && !r1 && !r2,
 						"Commit of the read/reorg transaction is reached only when load's error is nil and not ErrReorg")
 					// and never between a Delete and the next load
 					for _, dc := range m.calls(m.del) {
